@@ -1,0 +1,25 @@
+//go:build verif
+
+package nat
+
+import (
+	"io"
+
+	"github.com/cilium/ebpf"
+)
+
+// Verification seams for property C10 (runtime-monitoring harness in /verif).
+// Exported wrappers around unexported fields; no behaviour of their own.
+
+// VerifC10SetWriter makes the logger write its records to w instead of the
+// writer chosen by NewLogger (stdout when no FilePath is configured), so that
+// the harness can read the port-block log it is judging.
+func (l *Logger) VerifC10SetWriter(w io.Writer) {
+	l.mu.Lock()
+	l.writer = w
+	l.mu.Unlock()
+}
+
+// VerifC10SetSubscriberNATMap hands the manager the subscriber_nat map that
+// Start() would have taken from the loaded collection.
+func (m *Manager) VerifC10SetSubscriberNATMap(mp *ebpf.Map) { m.subscriberNAT = mp }
